@@ -6,7 +6,7 @@ TIMEOUT = {"quick": 1500, "thorough": 7000}
 RULE = ("matrix: site {ReaderFunc, WriterFunc, Scan callback, Map, Filter, Flatmap, Fold, Reduce combiner, Repartition partitioner} "
         "x mode {error, temporary error, panic, partition out of range (n and -1)} (as applicable to the site) x {persistent, one-shot} "
         "x failing call index k in {0,1,2,3,5,8,13,40} (first row, vector boundaries of CH 1/2/4, last rows, never) x downstream "
-        "{nothing, reduce, reshuffle+map} x configuration {local, bigmachine testsystem 2x2, 1x4 with machine combiners} x vector size "
+        "{nothing, reduce, reshuffle+map} x configuration {local with parallelism 4 and 1, bigmachine testsystem 2x2, 1x1, 1x4 with machine combiners} x vector size "
         "{1,2,4,128}; after the faulty program a healthy program runs in the same session; thorough = the whole matrix, quick = a "
         "seeded 1/5 sample stratified by site; non-trivial = the failure actually fired")
 TRUST = ["the harness counts the failing calls of the injected function (fired=) in-process; bigmachine workers are testsystem "
@@ -31,7 +31,7 @@ SITES = [
     ("partitioner", "N0=const 2 " + ROWS + " ; N1=repartition N0 byval", "N1", ["panic", "oob", "neg"]),
 ]
 DOWN = ["", " ; N2=reduce N1 add", " ; N2=reshuffle N1 ; N3=map N2 inc"]
-CONFIGS = ["local", "bm M2 P2", "bm M4 P4 MC"]
+CONFIGS = ["local", "local P1", "bm M2 P2", "bm M1 P1", "bm M4 P4 MC"]
 KS = [0, 1, 2, 3, 5, 8, 13, 40]
 HEALTHY = "N0=const 2 1:1 2:2 3:3 ; N1=reduce N0 add ; OUT N1"
 
